@@ -50,11 +50,27 @@ CONFIG = {
             "open known findings F13 and F38 are excluded by construction (see known_findings.json)",
         ],
     },
+    "C05": {
+        "level": "exploration",
+        "rule": "C05: bodies of the eight covered pack types and complete TCP frames compared byte for byte with an independent encoder written from the protocol layout; frozen samples guard against consistent drift.",
+        "groups": [G("c05", shards={"quick": 4, "thorough": 16}, timeout={"quick": 300, "thorough": 2400})],
+        "assumptions": [
+            "the reference encoder (harness/ref/pack.go) was written from the layout stated in the property and from this code base's writer, not from an external specification: it detects change and disagreement with the stated layout, not an error that predates both",
+            "entry order inside the unordered DB-pool maps of the counter pack is the map's own enumeration order (implementation-defined)",
+            "EventPack user attributes do not use the four reserved keys",
+            "open known finding F13: the reference pins the writer's layout of TxcallerPOidMeter; the map stays nil/empty in generated packs while F13 is open",
+        ],
+    },
 }
 
 NOT_APPLICABLE = {}
 
 MANIFEST_TEXT = {
+    "C05": {
+        "technique": "property-based testing: generated packs vs independent reference encoder of the protocol layout (bodies and complete frames received over loopback TCP); frozen golden samples",
+        "level_text": "Generated-input exploration: thousands of packs of the eight covered types (every optional section present/absent, both header forms) are compared byte for byte with a reference encoder written from the protocol layout, and complete frames sent by a real one-way client are captured on a loopback listener and compared with the reference frame (source, version, project code, license hash in force, exact length). 48 frozen samples pin today's layout.",
+        "level_note": "No collector or external specification exists in the sandbox: conformance means agreement with the independently written encoder of the stated layout. Uses the verif hook oneway.NewForVerif.",
+    },
     "C02": {
         "technique": "property-based testing: generated values vs independent reference codec (encode, decode, re-encode); differential decoding of mutated encodings; native coverage-guided fuzzing of ReadValue against the reference decoder",
         "level_text": "Generated-input exploration of the value model: recursive values over all 20 type codes with boundary scalars, containers past table growth, deep nesting (to 20000 levels in the thorough tier); every case is checked byte for byte against an independent encoder, decoded by golib and by the reference decoder, and re-encoded. Decoder agreement on mutated and fuzzed bytes guards against writer and reader being wrong consistently.",
